@@ -1,0 +1,9 @@
+//go:build verif
+
+package syntax
+
+// VerifDisableRewrites switches individual semantics-preserving tree rewrites
+// off (verification builds only) so that a pattern can be compiled without them
+// and compared with its normal compilation. It is a plain variable: set it only
+// while no other goroutine is parsing.
+var VerifDisableRewrites uint32
